@@ -87,7 +87,8 @@ def main():
                         debuglog["format_errors"] += 1
             logging.disable(logging.NOTSET)  # setup_repo() switches logging off altogether (the library logs every expected failure)
             lg = logging.getLogger("pycomm3")
-            lg.setLevel(logging.DEBUG)
+            # shards 1, 5, 9 ...: the library's own VERBOSE level (5: every packet is formatted as a hex dump); shards 3, 7 ...: DEBUG
+            lg.setLevel(5 if i % 4 == 1 else logging.DEBUG)
             lg.addHandler(_Sink())
             lg.propagate = False
         ctx = Ctx(pid, tier, seed, i, n)
